@@ -3,3 +3,7 @@ import FinProtoc.Props.C09
 #print axioms FinProtoc.Props.format_ok_is_parsed
 #print axioms FinProtoc.Props.accepted_is_whole
 #print axioms FinProtoc.Props.keylist_short
+#print axioms FinProtoc.Props.parseToks_toks
+#print axioms FinProtoc.Props.parsed_tree_is_the_text
+#print axioms FinProtoc.Props.formatted_tree_is_the_text
+#print axioms FinProtoc.Props.exFmtText_accepted
